@@ -35,6 +35,8 @@ structure BProps where
   hasLines : Bool         -- it paints the inline drawing of its children as its own content: a block container
                           -- whose children are line boxes (step 7), or an inline box that forms a context (step 6)
   text : Bool             -- a text run (leaf): drawInlineLevel paints it as content
+  tableCell : Bool        -- a table cell: not block-level, but its lines are painted at step 7 like a block's
+  table : Bool            -- a table box (block-level): step 4 paints it with drawTable
   deriving DecidableEq, Repr
 
 inductive Box where
@@ -53,6 +55,28 @@ def BProps.makesContext (p : BProps) : Bool := (p.positioned && p.z.isSome) || p
     (`applies := position != static || IsFlexItem || IsGridItem`; flex and grid items are outside this model) -/
 def BProps.zIndex (p : BProps) : Int := if p.positioned then p.z.getD 0 else 0
 
+/-- is the box an ordinary in-flow box of the enclosing (pseudo-)context (it stays in the context's tree)? -/
+def BProps.inFlow (p : BProps) : Bool := !p.makesContext && !p.positioned && !p.floated && !p.inlineBlock
+
+mutual
+  /-- the cells drawTable walks: the table cells left in the table's tree (cells that form a context, are
+      positioned or float were taken out by the dispatch), row groups and rows are walked through -/
+  def cellsOf : Box → List Nat
+    | .mk id pr children => if !pr.inFlow then [] else if pr.tableCell then [id] else cellsOfL children
+  def cellsOfL : List Box → List Nat
+    | [] => []
+    | b :: rest => cellsOf b ++ cellsOfL rest
+end
+
+/-- step 4 for one in-flow block-level box: background then border; for a table (drawTable, E.2 step 4): the
+    table's background, the cells' backgrounds in tree order, the table's border, the cells' borders
+    (column / row-group / row backgrounds and collapsed borders are outside this model) -/
+def blockPaint (id : Nat) (pr : BProps) (children : List Box) : List PEv :=
+  if pr.table then
+    (id, Layer.background) :: (cellsOfL children).map (fun c => (c, Layer.background))
+      ++ (id, Layer.border) :: (cellsOfL children).map (fun c => (c, Layer.border))
+  else [(id, Layer.background), (id, Layer.border)]
+
 /-- a child context: (z-index, what drawing it paints) -/
 abbrev CCtx := Int × List PEv
 
@@ -68,7 +92,7 @@ def sortZ : List CCtx → List CCtx
 /-- what the dispatch accumulates for the context being built -/
 structure Acc where
   childContexts : List CCtx := []      -- in discovery order (with the insert-before-descendants rule)
-  blocks : List Nat := []              -- step 4: in-flow non-positioned block-level boxes
+  blocks : List (List PEv) := []       -- step 4: per in-flow non-positioned block-level box, what is painted for it
   floats : List (List PEv) := []       -- step 5
   blocksAndCells : List (List PEv) := [] -- step 7: per in-flow block with line children, the inline drawing of its lines
   kept : List Nat := []                -- the boxes left in the context's normal tree, pre-order (drawOutlines walks them)
@@ -83,14 +107,14 @@ def insertAt {α : Type} (l : List α) (i : Nat) (x : α) : List α := l.take i 
     Opacity: everything (outlines included) goes to a group that is composited last; transform: applied
     before step 2, until the end; overflow: steps 3-9 are clipped, the background/border (step 2) and the
     outlines (step 10) are not. -/
-def drawCtx (id : Nat) (pr : BProps) (neg zero pos : List CCtx) (blocks : List Nat) (floats : List (List PEv))
+def drawCtx (id : Nat) (pr : BProps) (neg zero pos : List CCtx) (blocks : List (List PEv)) (floats : List (List PEv))
     (lines : List (List PEv)) (kept : List Nat) : List PEv :=
   (if pr.opacity then [(id, Layer.groupOpen)] else [])
   ++ (if pr.transform then [(id, Layer.xformOpen)] else [])
   ++ (if pr.blockLevel || pr.inlineBlock then [(id, .background), (id, .border)] else [])
   ++ (if pr.overflow then [(id, Layer.clipOpen)] else [])
   ++ (neg.flatMap (·.2))
-  ++ (blocks.flatMap fun b => [(b, Layer.background), (b, Layer.border)])
+  ++ blocks.flatten
   ++ floats.flatten
   ++ lines.flatten
   ++ (zero.flatMap (·.2))
@@ -156,8 +180,9 @@ mutual
         let ci := acc.blocksAndCells.length
         -- the box stays in the tree: drawOutlines reaches it before its children
         let (acc', inl) := dispatchChildren children { acc with kept := acc.kept ++ [id] }
-        let acc'' := if pr.blockLevel then { acc' with blocks := insertAt acc'.blocks bi id } else acc'
-        let acc3 := if pr.blockLevel && pr.hasLines then { acc'' with blocksAndCells := insertAt acc''.blocksAndCells ci inl } else acc''
+        let acc'' := if pr.blockLevel then { acc' with blocks := insertAt acc'.blocks bi (blockPaint id pr children) } else acc'
+        -- blocksAndCells: block-level boxes and table cells, each at the rank it had before its children
+        let acc3 := if (pr.blockLevel || pr.tableCell) && pr.hasLines then { acc'' with blocksAndCells := insertAt acc''.blocksAndCells ci inl } else acc''
         -- drawInlineLevel: a text run paints its text; a line / inline box paints its children; block-level
         -- boxes are not met inside lines
         (acc3, if pr.text then [(id, Layer.content)] else if pr.blockLevel then [] else inl)
